@@ -303,6 +303,30 @@ Proof.
   destruct (stream_puts (make_stream cfg th lg sv tag) its) as [st ev]. reflexivity.
 Qed.
 
+Lemma msg_from_app pre post : forall bad,
+  msg_from bad (pre ++ post) = msg_from bad pre ++ msg_from (bad_after bad pre) post.
+Proof.
+  induction pre as [|it pre IH]; intros bad; [reflexivity|].
+  cbn [app]. rewrite !msg_from_cons. cbn [bad_after]. rewrite IH. now rewrite app_assoc.
+Qed.
+
+(* moving a named stream object into another variable half-way changes nothing: the new variable owns record and buffer,
+   the old one is empty and silent *)
+Theorem named_moved_same cfg th lg sv tag pre post :
+  exec_named_moved cfg th lg sv tag pre post = spec_stmt cfg th lg sv tag (pre ++ post).
+Proof.
+  unfold exec_named_moved, make_stream, spec_stmt, enabled, stream_kind. rewrite sev_ge_gate.
+  destruct (gate_open (c_min cfg) sv); cbn [andb].
+  - rewrite construct_spec; unfold live. destruct (holds (th (lg_rec lg)) (lg_filter lg) sv).
+    + rewrite stream_puts_live. cbn [ss_move liveb ss_r ss_s ss_bad].
+      change (mkSS (Some ?r) (Some ?x) ?y) with (liveb r x y). rewrite stream_puts_live.
+      cbn [stream_destroy]. rewrite destroy_live. change (mkSS None None false) with dead. rewrite destroy_dead, app_nil_r.
+      unfold delivered, message. rewrite msg_from_app, calls_of_app, map_app. cbn [app]. now rewrite app_assoc.
+    + rewrite stream_puts_dead. cbn [ss_move dead ss_r ss_s ss_bad]. change (mkSS None None false) with dead.
+      rewrite stream_puts_dead. reflexivity.
+  - rewrite !stream_puts_null. reflexivity.
+Qed.
+
 (* ---------------------------------------------------------------- programs: basic facts *)
 
 Lemma exec_prog_app cfg ops1 : forall w ops2,
